@@ -19,7 +19,7 @@ MANIFEST = {
           'ALL cut positions; the delivered log must equal the sent sequence exactly (order, exactly once, name, '
           'timestamp, value with sign of zero), no exception may escape and the transport must stay open.',
   'note': 'Trusted: the independent encoder in mc/wire.py, the canonical receiver state (cross-checked by the <=k-cut '
-          'enumeration that uses no state capture). protobuf listener not covered (library absent). Pickle batchings are also sent as python2 clients pickle them (8-bit UTF-8 names); a flow-control pause is injected during every datapoint, followed by a resume or by the loss of the connection. The listening side is explored as an evx system (mc/listenh.py: real receiver factory and connection-limit logic against a fake listening port with a backlog); datagrams of exactly the UDP read-buffer size; the alphabet once more with lists in force.',
+          'enumeration that uses no state capture). protobuf listener not covered (library absent). Pickle batchings are also sent as python2 clients pickle them (8-bit UTF-8 names); a flow-control pause is injected during every datapoint, followed by a resume or by the loss of the connection. The listening side is explored as an evx system (mc/listenh.py: real receiver factory and connection-limit logic against a fake listening port with a backlog); datagrams of exactly the UDP read-buffer size; the alphabet once more with lists in force. A pickle frame of exactly the configured PICKLE_RECEIVER_MAX_LENGTH (64, 4096, 1 MiB) between two small frames.',
 }
 
 SIGMA = [
